@@ -57,4 +57,21 @@ CREATE INDEX synset_relation_source_index""")]},
      'edits': [E(V, 'if any(dfn["text"].strip() == "" for dfn in ss.get("definitions", []))', 'if any(not dfn["text"].strip() for dfn in ss.get("definitions", []))')]},
     {'name': 'blank-example-empty-only', 'expect': 'C18-R6',
      'edits': [E(V, 'if any(ex["text"].strip() == "" for ex in ss.get("examples", []))', 'if any(ex["text"] == "" for ex in ss.get("examples", []))')]},
+    {'name': 'wrong-pos-any-relation', 'expect': 'C18-R7',
+     'edits': [E(V, "            if r['relType'] == 'hypernym'\n            and r['target'] in sspos", "            if r['target'] in sspos")]},
+    {'name': 'missing-ili-definition-or', 'expect': 'C18-R7',
+     'edits': [E(V, "            if ss['ili'] == 'in' and not ss.get('ili_definition')}", "            if ss['ili'] == 'in' or not ss.get('ili_definition')}")]},
+    {'name': 'multiples-at-least-one', 'expect': 'C18-R7',
+     'edits': [E(V, "if cnt > 1", "if cnt >= 1")]},
+    {'name': 'benign-redundant-relation-loop', 'expect': 'silent', 'property': 'C18',
+     'edits': [E(V, """    return {
+        src: ({'type': typ, 'target': tgt} | ({'dc:type': dctyp} if dctyp else {}))
+        for src, typ, tgt, dctyp in redundant
+    }""", """    result: _Result = {}
+    for src, typ, tgt, dctyp in redundant:
+        item = {'type': typ, 'target': tgt}
+        if dctyp:
+            item['dc:type'] = dctyp
+        result[src] = item
+    return result""")]},
 ]
